@@ -17,7 +17,10 @@ RULE = ("correspondence: the Gallina functions generated from utils.py vs the re
         "directories (payload above the first threshold of the choice function, then ~1/16 of it; and the reverse) and the same "
         "absolute path after the payload grew / shrank across that threshold (sparse files) -- each recorded piece length must "
         "equal get_piece_length(total of THAT payload) and what a fresh interpreter records for it, be a power of two in range and "
-        "be monotone in the total. A case is non-trivial when it is distinct; ranges count once per range.")
+        "be monotone in the total; the same judgement on payloads whose big sparse file lies in a SYMLINKED DIRECTORY of the payload or is "
+        "itself a symlinked file (the creators follow links and record those files), also after the payload grew by a regular file: "
+        "the lengths recorded in the metafile must add up to the payload as a reader following links sees it, and the recorded piece "
+        "length must be the rule applied to that total. A case is non-trivial when it is distinct; ranges count once per range.")
 TRUSTED_BASE = [
     "Coq 8.16.1 kernel (coqc, vm_compute); no axioms (every theorem: Closed under the global context)",
     "translator gen/pyfun2coq.py + gen/gen_piecelength.py (Python ast -> Gallina), checked on every run by the vm_compute correspondence",
@@ -233,6 +236,148 @@ def auto_sequences(ctx, tmp):
                 ctx.fail(kind, seq_input(creator, seq, steps, k), exp, obs)
 
 
+# ------------------------------------------------------------------------------------------------ automatic choice, symbolic links
+# The creators follow symbolic links: a symlinked directory of the payload is traversed, hashed and its files are RECORDED in the
+# metafile (so is a symlinked file, with the target's length).  The automatic piece length must then be the rule applied to the
+# payload that the metafile describes -- the total of the lengths it records -- and be monotone when the payload grows.
+LINK_SHAPES = {
+    "plain-subdir": "{f: 10 bytes, data/sparse.img: a hole}",
+    "dirlink": "{f: 10 bytes, data -> ../store-<name> (a symlinked directory holding sparse.img: a hole)}",
+    "dirlink+extra": "{f: 10 bytes, data -> ../store-<name> (a symlinked directory holding sparse.img: a hole), extra.bin: a regular file}",
+    "filelink": "{f: 10 bytes, sparse.img -> ../store-<name>/sparse.img (a symlinked file: a hole)}",
+    "filelink+extra": "{f: 10 bytes, sparse.img -> ../store-<name>/sparse.img (a symlinked file: a hole), extra.bin: a regular file}",
+}
+
+
+def link_sequences(gpl):
+    """name -> [[directory, spelling, total, shape]]: payloads just above the first threshold of the choice function whose big
+       sparse file is reached through a symbolic link; then the same payload grown by a regular file"""
+    big = next(st[0][2] for name, st in sequences(gpl).items() if name.endswith("big then small"))
+    extra = 4096
+    return {
+        "payload with a symlinked directory, then the same payload plus a regular file":
+            [["L", "absolute", big, "dirlink"], ["L", "absolute", big + extra, "dirlink+extra"]],
+        "payload with a real directory, then (same relative path string, other working directory) a bigger one whose directory is "
+        "a symlink": [["R", "relative", big, "plain-subdir"], ["S", "relative", big + extra, "dirlink+extra"]],
+        "payload whose big file is a symlink, then the same payload plus a regular file":
+            [["F", "relative", big, "filelink"], ["F", "relative", big + extra, "filelink+extra"]],
+    }
+
+
+def set_link_payload(d, name, total, shape):
+    """<d>/<name> of the given shape (LINK_SHAPES) with `total` bytes altogether as a reader following links counts them"""
+    root, store = os.path.join(d, name), os.path.join(d, "store-" + name)
+    os.makedirs(root, exist_ok=True)
+    with open(os.path.join(root, "f"), "wb") as fd:
+        fd.write(b"x" * 10)
+    extra = 4096 if shape.endswith("+extra") else 0
+    if extra:
+        with open(os.path.join(root, "extra.bin"), "wb") as fd:
+            fd.write(b"e" * extra)
+    hole = total - 10 - extra
+    kind = shape.split("+")[0]
+    holder = os.path.join(root, "data") if kind == "plain-subdir" else store
+    os.makedirs(holder, exist_ok=True)
+    with open(os.path.join(holder, "sparse.img"), "ab") as fd:
+        fd.truncate(hole)
+    if kind == "dirlink" and not os.path.lexists(os.path.join(root, "data")):
+        os.symlink("../store-" + name, os.path.join(root, "data"), target_is_directory=True)
+    if kind == "filelink" and not os.path.lexists(os.path.join(root, "sparse.img")):
+        os.symlink("../store-" + name + "/sparse.img", os.path.join(root, "sparse.img"))
+
+
+def recorded_total(info):
+    """total of the file lengths a metafile records (padding entries of a files list are not payload)"""
+    if "files" in info:
+        return sum(f["length"] for f in info["files"] if "p" not in str(f.get("attr", "")))
+    if "length" in info:
+        return info["length"]
+
+    def walk(tree):
+        return sum(v["length"] if k == "" else walk(v) for k, v in tree.items())
+    return walk(info["file tree"])
+
+
+def run_link_sequence(tmp, creator, steps, tag):
+    """as run_sequence; per step ('ret', piece length, recorded total) | ('exc', name)"""
+    from torrentfile import torrent
+    from torrentfile.cli import execute
+    import pyben
+    name = "linked" if creator == "TorrentFile" else "linked-" + creator
+    base = os.path.join(tmp, "lseq", tag, creator)
+    cwd0 = os.getcwd()
+    res = []
+    for k, (d, spelling, total, shape) in enumerate(steps):
+        wd = os.path.join(base, d)
+        set_link_payload(wd, name, total, shape)
+        path = name if spelling == "relative" else os.path.join(wd, name)
+        out = os.path.join(wd, f"o{k}.torrent")
+        sink = io.StringIO()
+        try:
+            os.chdir(wd)
+            with contextlib.redirect_stdout(sink), contextlib.redirect_stderr(sink):
+                if creator == "cli":
+                    execute(["create", "-o", out, "--prog", "0", path])
+                else:
+                    kw = {"meta_version": "3"} if creator == "TorrentAssembler" else {}
+                    getattr(torrent, creator)(path=path, outfile=out, progress=0, **kw).write()
+            info = pyben.load(out)["info"]
+            r = ("ret", info["piece length"], recorded_total(info))
+        except (Exception, SystemExit) as e:  # noqa
+            r = ("exc", type(e).__name__)
+        finally:
+            os.chdir(cwd0)
+        res.append(r)
+    return res
+
+
+def judge_link_sequence(steps, res, fresh, gpl):
+    """[(kind, step, expected, observed)]: the recorded total is the payload a reader following links sees; the recorded piece
+       length is the rule on the recorded total (= what a fresh interpreter records for a plain payload of that total); the
+       three-field judgement of judge_sequence (range, value, monotone) applies to (total, piece length)"""
+    out = []
+    for k, ((d, spelling, total, shape), r) in enumerate(zip(steps, res)):
+        if r[0] == "ret" and r[2] != total:
+            out.append(("auto-piece-length-symlink-payload", k, f"lengths recorded in the metafile add up to {total} (links followed)", r[2]))
+        elif r[0] == "ret" and isinstance(r[1], int) and call(gpl, r[2]) != ("ret", r[1]):
+            out.append(("auto-piece-length-symlink-total", k,
+                        {"get_piece_length(total of the lengths recorded in the metafile)": list(call(gpl, r[2])), "recorded total": r[2]},
+                        r[1]))
+    plain = judge_sequence([st[:3] for st in steps], [r[:2] for r in res], fresh, gpl)
+    seen = {(kind, k) for kind, k, _, _ in out}
+    for kind, k, exp, obs in plain:
+        kind = {"auto-piece-length-stale": "auto-piece-length-symlink-total"}.get(kind, kind)
+        if (kind, k) not in seen:
+            out.append((kind, k, exp, obs))
+    return out
+
+
+def link_seq_input(creator, seq, steps, k):
+    return {"route": "in-process sequence, no piece length given, symbolic links in the payload", "creator": creator, "sequence": seq,
+            "failing_step": k, "link_steps": [list(st) for st in steps],
+            "payload": {st[3]: "directory " + LINK_SHAPES[st[3]] + "; total = the bytes a reader following links sees" for st in steps}}
+
+
+def link_auto_sequences(ctx, tmp):
+    from torrentfile import utils
+    seqs = link_sequences(utils.get_piece_length)
+    totals = sorted({st[2] for steps in seqs.values() for st in steps})
+    fresh = fresh_auto(os.path.join(tmp, "lfresh"), totals)
+    for t in totals:
+        if fresh[t][0] != "ret":
+            ctx.broken.append(f"fresh-interpreter create of a {t}-byte payload failed: {fresh[t][1]}")
+    for creator in AUTO_CREATORS:
+        for seq, steps in seqs.items():
+            res = run_link_sequence(tmp, creator, steps, "run")
+            for k in range(len(res)):
+                ctx.case(key=("auto-link-seq", creator, seq, k),
+                         classes=["auto in-process sequence with symbolic links", "auto creator " + creator, "auto payload " + steps[k][3]],
+                         sample=dict(link_seq_input(creator, seq, steps, k), recorded=[list(r) for r in res])
+                         if creator == "cli" and k == 1 and "real directory" in seq else None)
+            for kind, k, exp, obs in judge_link_sequence(steps, res, fresh, utils.get_piece_length):
+                ctx.fail(kind, link_seq_input(creator, seq, steps, k), exp, obs)
+
+
 def run(ctx, model_ok):
     core.use_repo_in_process()
     from torrentfile import utils
@@ -441,12 +586,29 @@ def run(ctx, model_ok):
         finally:
             os.chdir(cwd)
         auto_sequences(ctx, tmp)
+        link_auto_sequences(ctx, tmp)
 
 
 def replay(ctx, data):
     core.use_repo_in_process()
     from torrentfile import utils
     inp = data.get("input", {})
+    if isinstance(inp.get("link_steps"), list) and inp.get("creator") in AUTO_CREATORS:
+        with core.Scratch("vc12r_") as tmp:
+            os.environ["HOME"] = tmp
+            steps, creator = [tuple(st) for st in inp["link_steps"]], inp["creator"]
+            fresh = fresh_auto(tmp, sorted({st[2] for st in steps}))
+            res = run_link_sequence(tmp, creator, steps, "replay")
+            print(f"[C12 replay] {creator}, no piece length given, one process; {inp.get('sequence')}:")
+            for (d, spelling, total, shape), r in zip(steps, res):
+                print(f"   directory {d}, {spelling} path, payload {LINK_SHAPES[shape]} of {total} bytes (links followed): recorded "
+                      f"(piece length, total of the recorded lengths) {r[1:] if r[0] == 'ret' else r}; get_piece_length({total}) = "
+                      f"{call(utils.get_piece_length, total)}; fresh interpreter on a plain payload of that total {fresh.get(total)}")
+            probs = judge_link_sequence(steps, res, fresh, utils.get_piece_length)
+        for kind, k, exp, obs in probs:
+            print(f"[C12 replay] VIOLATION {kind} at step {k}: expected {exp}, observed {obs}")
+        print("[C12 replay] verdict:", "property VIOLATED on this input" if probs else "the property holds on this input")
+        return 1 if probs else 0
     if isinstance(inp.get("steps"), list) and inp.get("creator") in AUTO_CREATORS:
         with core.Scratch("vc12r_") as tmp:
             os.environ["HOME"] = tmp
